@@ -189,6 +189,9 @@ Proof.
     destruct (ob_blocked p (obrs_mode r) (oblp_ca l) x).
     { destruct (ob_notify_subs p r tl (ob_lp_pend l)) as [[[tl' pd0] l0] outs0] eqn:E.
       inversion H; subst. rewrite !ob_cnt_cons. cbn [obsb_sess]. specialize (IH _ _ _ _ _ s E). cbn in IH. lia. }
+    destruct (ob_in_transfer (oblp_ca l) (obsb_sess x)).
+    { destruct (ob_notify_subs p r tl (ob_lp_pend l)) as [[[tl' pd0] l0] outs0] eqn:E.
+      inversion H; subst. rewrite !ob_cnt_cons. cbn [obsb_sess]. specialize (IH _ _ _ _ _ s E). cbn in IH. lia. }
     destruct (obrs_err r).
     { match type of H with context [ob_notify_subs p r tl ?L] =>
         destruct (ob_notify_subs p r tl L) as [[[tl' pd0] l0] outs0] eqn:E end.
@@ -227,7 +230,7 @@ Proof.
   cbn [snd] in *. assert (ob_ca_get rf' s = ob_ca_get rf s - ob_cnt s (x :: tl)).
   { rewrite IH, ob_ref_get_add, ob_cnt_cons.
     destruct (obsb_sess x =? s) eqn:E1; [apply Z.eqb_eq in E1; rewrite E1|]; lia. }
-  destruct (ob_blocked p (obrs_mode r) ca x); cbn [snd]; assumption.
+  destruct (ob_blocked p (obrs_mode r) ca x || ob_in_transfer ca (obsb_sess x)); cbn [snd]; assumption.
 Qed.
 
 Lemma ob_step_refs : forall p st op, ob_refs_ok st -> ob_refs_ok (fst (ob_step p st op)).
